@@ -30,7 +30,7 @@ RULE = (
 )
 ASSUMPTIONS = ["only default ignore patterns", "mtime order is used as the witness of write order (tmpfs, ns timestamps)"]
 BUDGET = {"quick": (220, 4), "thorough": (48000, 16)}
-REQUIRED = ["siblings", "chain>=2", "prefix_siblings", "sf", "-n", "child_after_parent", "ignored_child", "ignored_child_after_sf"]
+REQUIRED = ["siblings", "chain>=2", "prefix_siblings", "sf", "-n", "child_after_parent", "ignored_child", "ignored_child_after_sf", "sf_into_ignored_child", "sf_far_apart_histories"]
 
 CFG = {
     "kinds": ["create"] * 7 + ["create_sf"] * 3 + ["put_new", "put_new", "overwrite", "mkdir", "mv", "rm"],
@@ -61,6 +61,20 @@ def _scn(draw):
         for d in picks:
             pre.append({"op": "create", "root": d, "formats": draw(gen.formats(2)), "flags": []})
     scn["steps"] = pre + scn["steps"]
+    if tree_extra == "deep" and "d1" in scn["tree"] and isinstance(scn["tree"]["d1"], dict) and draw(st.booleans()):
+        # one -sf run naming files whose owning histories are several nesting levels apart
+        chain = ["d1", "d1/d2", "d1/d2/d3"]
+        for d in draw(st.permutations(chain)):
+            scn["steps"].append({"op": "create", "root": d, "formats": draw(gen.formats(2)), "flags": []})
+        gm = hist.GenModel(scn["tree"])
+        for s_ in scn["steps"]:
+            gm.apply(s_)
+        top = [f for f in sorted(gm.files) if "/" not in f]
+        sel = [f for f in ["d1/d2/d3/f3", "d1/f1"] if f in gm.files] + (top[:1] if top else [])
+        if len(sel) < 2:
+            return scn
+        scn["steps"].append({"op": "create_sf", "root": "", "formats": draw(gen.formats(2)), "flags": [], "sf": draw(st.permutations(sel))[: draw(st.integers(2, len(sel)))]})
+        scn["far_apart_sf"] = True
     return scn
 
 
@@ -86,7 +100,7 @@ def _ignored_child(draw):
         # (a trailing-slash pattern does not match the folder entry itself - left unasserted as in C12 - so it is not used here)
         "pattern": draw(st.sampled_from([skip, skip, skip[:2] + "*", "?" + skip[1:]])),
         "formats": draw(gen.formats(2)),
-        "middle": draw(st.lists(st.sampled_from(["sf_other", "sf_top", "folder", "put"]), min_size=1, max_size=3)),
+        "middle": draw(st.lists(st.sampled_from(["sf_other", "sf_top", "folder", "put", "sf_skip", "sf_skip"]), min_size=1, max_size=3)),
         "n": draw(st.booleans()),
     }
 
@@ -109,6 +123,20 @@ def run_ignored_child(scn, ctx):
             k += 1
             if m == "sf_other":
                 res = w.create("R", scn["formats"], sf=["R/%s/sub/p.txt" % other])
+            elif m == "sf_skip":
+                # a file inside the excluded nested history named explicitly: it belongs to that (deepest) history
+                ns = len(w.manifests("R/" + skip))
+                nr = len(w.manifests("R"))
+                res = w.create("R", scn["formats"], sf=["R/%s/d/x" % skip])
+                require(res.exc is None and res.exit_code == 0, "ignored-child-run", "sf_skip: " + res.brief(), res)
+                require(len(w.manifests("R/" + skip)) == ns + 1 and len(w.manifests("R")) == nr + 1, "which-histories",
+                        "create -sf on %s/d/x: generations %d->%d in %r, %d->%d in the root" % (skip, ns, len(w.manifests("R/" + skip)), skip, nr, len(w.manifests("R"))), res)
+                cdoc = w.read_history("R/" + skip)[-1][2]
+                rdoc = w.read_history("R")[-1][2]
+                require([r["path"] for r in cdoc["records"] if r["kind"] == "file"] == ["d/x"], "wrong-history", "the nested history records %r for -sf d/x" % [r["path"] for r in cdoc["records"]], res)
+                require(not [r for r in rdoc["records"] if r["kind"] == "file"], "wrong-history", "the root records %r although the file belongs to the nested history" % [r["path"] for r in rdoc["records"]], res)
+                ctx.event("sf_into_ignored_child")
+                continue
             elif m == "sf_top":
                 res = w.create("R", scn["formats"], sf=["R/top.txt"])
             elif m == "put":
@@ -247,6 +275,8 @@ def run_case(scn, ctx):
                     ctx.event("child_after_parent")
                 res = hist.apply_step(w, scn, step)
                 nontrivial |= bool(observe(w, scn, step, before, res, ctx, None))
+                if scn.get("far_apart_sf") and step is scn["steps"][-1]:
+                    ctx.event("sf_far_apart_histories")
             else:
                 hist.apply_step(w, scn, step)
         ctx.mark_nontrivial(nontrivial)
